@@ -767,57 +767,6 @@ CONFIG['C04'] = {'assumptions': ["path values '' '.' '..' are outside the guaran
                   'model is the identity and only the correspondence speaks',
                   'the in-memory wire stands for a TCP connection (no proxies, no HTTP/2)']}
 
-CONFIG['C12'] = {'assumptions': ['a request has either a body parameter or form data, not both (Swagger 2.0): Plan.WF',
-                 'upload sources and response bodies do not block forever on their own (a stalled response is a placement; a stalled upload source '
-                 "is the caller's)",
-                 'Debug mode (httputil.DumpRequestOut / DumpResponse, which read the bodies) is off',
-                 'a stream payload (io.ReadCloser body parameter) is read as a file handed over for upload: it must be closed too'],
- 'go_entry': 'client.KeepAliveTransport(rt).RoundTrip + Read/Close on resp.Body; client.(*Runtime).Submit (request.buildHTTP, runtime.go Submit, '
-             'keepalive.go)',
- 'model_fn': 'runD (drainingReadCloser over a scripted body) / predict (one maximal execution of the call LTS: mainSteps, gSteps, cSteps) / '
-             'effDeadline',
- 'partial': ['wall-clock: "returns no later than the effective deadline" is measured (late flag, 400 ms slack), not proved; proved is that the '
-             'deadline computed is the shorter of timeout and caller context, that every execution is finite and that the only states without '
-             'successor are returned-and-released ones or waits under an infinite deadline',
-             'goroutine scheduling: proved on the LTS for all interleavings of main thread, writer goroutine and context; that the Go program '
-             'refines the LTS is the correspondence (goroutine stacks, close counters, -race tier), not a proof',
-             'net/http contract (FullStatement parameter NetHTTPContract) assumed',
-             'early responses (server answers before the upload was consumed) are outside the LTS'],
- 'quick_n': 6000,
- 'race_n': 400,
- 'race_thorough_factor': 10,
- 'rule': 'stream D: the real drainingReadCloser (through client.KeepAliveTransport) over a scripted underlying body: data (0-24 bytes, 1 in 10 '
-         'beyond the 8192-byte drain buffer) x sticky terminal (EOF / error) x schedule of per-call behaviours (empty read, at most n bytes, at most '
-         'n bytes with the terminal in the same call) x any sequence of Read sizes (including 0) then Close; every script with data <= 2 bytes '
-         '(thorough: <= 6), <= 2 behaviours from {z,t1,l1,l2,t5} and <= 2 reads from {0,1,2,9} is enumerated on every run. Stream F: one '
-         'Runtime.Submit per fault placement: upload files (1-3, r successful one-byte reads then EOF or an error: every failing offset 0..6, '
-         'thorough 0..64) x form fields x media type x payload kind (none, buffered, producer error, stream) x request-writer error after handing '
-         'over x auth (none, ok, error, asks for the body then ok/error) x URL error x transport (error before the body, consumes it, fails / stalls '
-         'after m body reads) x response (never, k chunks then EOF / error / stall) x reader (reads k times or to the end, ok/error) x connection '
-         'reuse on/off x timeout / operation context / runtime context (none, live, deadline) x caller cancels at a phase (transport entry, after '
-         'the first body read, after the request, after the first response read) x wire (in-process RoundTripper honouring the net/http contract, or '
-         'a real http.Transport against an httptest.Server). Recorded per run: error origin, Close count of every file and of the stream payload, '
-         'goroutines with runtime/client frames left after the call settled (polled up to 200 ms), close count and end-reached flag of the response '
-         'body, whether the request context was released, lateness against the observed deadline (400 ms slack), where the deadline came from, '
-         'number of body reads of the transport. Systematic sweeps (every early return x body kind, every failing offset, every transport failure '
-         'point, every truncation point x reader depth, context ending at each phase) run before the random draws. A case is trivial only when there '
-         'is no body and no fault.',
- 'search_s': 40,
- 'thorough_n': 60000,
- 'thorough_seeds': 2,
- 'trusted_base': ['reading of the property text into the Lean `Spec` (human step, RtVerif/Model/<id>.lean)',
-                  'correspondence check (differential: Go harness /verif/harness -> protocol lines -> compiled Lean driver rtdriver evaluating Model '
-                  'and Spec); coverage bounded by the generators',
-                  "factgen (go/ast extraction of constants/tables into RtVerif/Gen/Facts.lean) and the driver's line parser",
-                  'net/http is an assumption of the LTS, not verified: the transport closes the request body on every path, Client.Do returns when '
-                  'the request context ends, a response is delivered only after the request body was consumed (the in-process wire implements '
-                  'exactly this; the real-wire cases exercise http.Transport itself)',
-                  'io.Pipe (rendezvous of writer and reader, CloseWithError semantics), mime/multipart (one pipe write per part header, per copied '
-                  'chunk, per field value, one for the trailer), io.Copy and context.WithTimeout/WithCancel are hand-modelled; validated by the '
-                  'transport-read counts and deadline kinds of stream F',
-                  "the scripted bodies and upload sources are the harness's own (their semantics is defined on both sides)",
-                  'goroutine accounting reads runtime.Stack; elapsed time is wall-clock: support, not proof']}
-
 CONFIG['C05DA'] = {'assumptions': ['values registered for patterns are their positions in the list given to Build',
                  'tables stay below denco.MaxSize (the two size errors are modelled but not reachable by the generator); SizeHint is capacity only'],
  'go_entry': 'denco.Router.Build + Router.VerifDump (hook, build tag verif) + denco.Router.Lookup',
